@@ -336,7 +336,10 @@ def run(chk):
                       "the re-arm decision depends on state that a nested pause (decoder refilling the buffer during resume) can overwrite: after the final resume the read timer is never armed and a stalled peer hangs the read")
     dr = ph.methods["data_received"]
     rr = K.exprs(dr, "self._reschedule_timeout()")
-    if rr and {str(l) for l in PC.units(PC.pc(rr[0][0], raw=True))} == {"(data)"}:
+    # (bytes on a connection that idles in the pool retire it instead, C06.idle.input: `not self.idle` is the only other condition admitted)
+    rc_ = PC.pc(rr[0][0], raw=True) if rr else []
+    ru = {str(l) for l in PC.units(rc_)}
+    if rr and "(data)" in ru and ru <= {"(data)", "!(self.idle)"} and all(len(cl_) == 1 for cl_ in rc_):
         chk.ok("C18.readtimer", rr[0][0], "data_received() re-arms the timer for real data only (not for the empty resume re-entry)")
     else:
         chk.violation("C18.readtimer", dr, "if data: self._reschedule_timeout()", "", "the read timer is not re-armed by incoming data (or re-armed by the empty re-entry)")
